@@ -1,0 +1,37 @@
+//go:build verif
+
+package services
+
+import (
+	"context"
+
+	"sigs.k8s.io/controller-runtime/pkg/client"
+
+	"github.com/jcmoraisjr/haproxy-ingress/pkg/controller/config"
+	convtypes "github.com/jcmoraisjr/haproxy-ingress/pkg/converters/types"
+)
+
+// Verification hook (build tag `verif` only): exports a constructor for the unexported
+// cache facade `c` and the two package-level name helpers. No logic lives here.
+
+// VerifCache is the method set of the cache facade that the converters (convtypes.Cache)
+// and the watchers (IsValidResource) use.
+type VerifCache interface {
+	convtypes.Cache
+	IsValidResource
+}
+
+// VerifCreateCacheFacade calls createCacheFacade.
+func VerifCreateCacheFacade(ctx context.Context, cli client.Client, cfg *config.Config, tracker convtypes.Tracker, sslCerts *SSL, dynconfig *convtypes.DynamicConfig, status func(client.Object)) VerifCache {
+	return createCacheFacade(ctx, cli, cfg, tracker, sslCerts, dynconfig, status)
+}
+
+// VerifBuildResourceName calls buildResourceName.
+func VerifBuildResourceName(defaultNamespace, kind, resourceName string, allowCrossNamespace bool) (string, string, error) {
+	return buildResourceName(defaultNamespace, kind, resourceName, allowCrossNamespace)
+}
+
+// VerifGetContentProtocol calls getContentProtocol.
+func VerifGetContentProtocol(input string) (proto, content string) {
+	return getContentProtocol(input)
+}
